@@ -540,6 +540,39 @@ def parse_encoding_crate(repo, t):
             die("encodings(): unknown constant %s" % v)
     t['ENCODINGS'] = [(v, consts[v]['name'], consts[v]['whatwg'], consts[v]['codec']) for v in order]
     t['ENCODING_CONSTS'] = {v: consts[v] for v in consts}
+    # forward tables of the single-byte codecs (byte 0x80+i -> code point, 65535 = undefined)
+    sbsrc = strip_comments(open(os.path.join(root, 'src/codec/singlebyte.rs'), encoding='utf-8').read())
+    if not re.search(r'if input\[i\] <= 0x7f \{\s*output\.write_char\(input\[i\] as char\);\s*\} else \{\s*let ch = \(self\.index_forward\)\(input\[i\]\);\s*if ch != 0xffff \{', sbsrc):
+        die("codec/singlebyte.rs: decoder shape not recognised")
+    idx_root, _idx_ver = find_crate(repo, 'encoding-index-singlebyte')
+    sb = []
+    for v in sorted(consts):
+        c = consts[v]['codec']
+        if not c.startswith('singlebyte:'):
+            continue
+        mod = c[len('singlebyte:'):]
+        if mod.startswith('index::'):
+            f = os.path.join(idx_root, mod[len('index::'):] + '.rs')
+            isrc = strip_comments(open(f, encoding='utf-8').read())
+            m = re.search(r'static FORWARD_TABLE: &\'static \[u16\] = &\[(.*?)\];', isrc, re.S)
+            if not m or not re.search(r'pub fn forward\(code: u8\) -> u16 \{\s*FORWARD_TABLE\[\(code - 0x80\) as usize\]\s*\}', isrc):
+                die("%s: forward table not recognised" % f)
+            tbl = [int(x) for x in m.group(1).replace('\n', ' ').split(',') if x.strip()]
+        elif mod == 'codec::singlebyte::iso_8859_1':
+            if not re.search(r'pub mod iso_8859_1 \{\s*#\[inline\] pub fn forward\(code: u8\) -> u16 \{ code as u16 \}', sbsrc):
+                die("iso_8859_1 forward not recognised")
+            tbl = list(range(128, 256))
+        elif mod == 'codec::whatwg::x_user_defined':
+            wsrc = strip_comments(open(os.path.join(root, 'src/codec/whatwg.rs'), encoding='utf-8').read())
+            if not re.search(r'pub fn forward\(code: u8\) -> u16 \{\s*0xf700 \| \(code as u16\)\s*\}', wsrc):
+                die("x_user_defined forward not recognised")
+            tbl = [0xf700 | b for b in range(128, 256)]
+        else:
+            die("single-byte codec module %s not recognised" % mod)
+        if len(tbl) != 128:
+            die("forward table of %s has %d entries" % (v, len(tbl)))
+        sb.append((v, tbl))
+    t['SB_TABLES'] = sb
     # labels
     src = strip_comments(open(os.path.join(root, 'src/label.rs'), encoding='utf-8').read())
     m = re.search(r'pub fn encoding_from_whatwg_label\(label: &str\) -> Option<EncodingRef> \{(.*?)\n\}', src, re.S)
@@ -680,6 +713,10 @@ def emit_coq(t, path):
                                       'true' if x else 'false', 'true' if y else 'false') for l, a, x, y in t['LANGUAGES']], 1) + '.')
     w('Definition ENCODING_TO_LANGUAGE : list (string * string) := ' +
       coq_list(['(%s, %s)' % (coq_str(a), coq_str(b)) for a, b in t['ENCODING_TO_LANGUAGE']], 4) + '.')
+    w('')
+    w('(* forward tables of the single-byte codecs of the codec crate, by encoding constant *)')
+    w('Definition SB_TABLES : list (string * list N) := ' +
+      coq_list(['(%s, %s)' % (coq_str(v), coq_list([str(x) for x in tb], 16, '     ')) for v, tb in t['SB_TABLES']], 1) + '.')
     w('')
     w('Definition RE_LITERAL : string := %s.' % coq_str(t['RE_LITERAL']))
     w('')
